@@ -610,4 +610,81 @@ fn u71_insert_leaf(n: usize) {
 	std::mem::forget(node);
 }
 
+// ================================================================== U72: Node::on_existing at leaf level (depth 0) -- a key leaves a leaf
+// Column::write_existing_value_plan (the value entry is released / its count lowered: U8d) is replaced by its contract with a
+// scripted outcome: the value is gone (None) or stays (Some).  Leaf keys as in U71.
+pub(crate) static mut WEV_GONE: bool = false;
+pub(crate) static mut WEV_ADDR: u64 = 0;
+pub(crate) static mut WEV_N: usize = 0;
+pub(crate) fn stub_write_existing_value_plan<K, V: AsRef<[u8]>>(_key: &TableKey, _tables: TablesRef, address: Address, _change: &Operation<K, V>, _log: &mut LogWriter, _stats: Option<&crate::stats::ColumnStats>, _ref_counted: bool) -> Result<(Option<crate::index::PlanOutcome>, Option<Address>)> {
+	unsafe {
+		WEV_N += 1;
+		WEV_ADDR = address.as_u64();
+		if WEV_GONE {
+			Ok((None, None))
+		} else {
+			Ok((Some(crate::index::PlanOutcome::Written), None))
+		}
+	}
+}
+fn u72_remove_leaf(n: usize) {
+	let tables: [crate::table::ValueTable; 0] = [];
+	let no = crate::compress::Compress::new(crate::compress::CompressionType::NoCompression, u32::MAX);
+	let tr = TablesRef { tables: &tables, compression: &no, col: 0, preimage: false, ref_counted: false };
+	let overlays: &'static crate::parking_lot::RwLock<crate::log::LogOverlays> = Box::leak(Box::new(crate::parking_lot::RwLock::new(crate::log::LogOverlays::with_columns(0))));
+	let w: &'static mut LogWriter<'static> = Box::leak(Box::new(LogWriter::new(overlays, 7)));
+	let mut node = mk_leaf_keys(n);
+	let kb: u8 = kani::any();
+	kani::assume(kb >= 1 && (kb as usize) <= 2 * n + 1);
+	let gone: bool = kani::any();
+	unsafe {
+		WEV_GONE = gone;
+		WEV_ADDR = 0;
+		WEV_N = 0;
+	}
+	let mut kv = Vec::with_capacity(1);
+	kv.push(kb);
+	let key: RcKey = kv.into();
+	let ops: [Operation<RcKey, RcValue>; 1] = [Operation::Dereference(key)];
+	let mut changes: &[Operation<RcKey, RcValue>] = &ops;
+	let r = ok(node.on_existing(0, &mut changes, tr, w));
+	assert!(r.is_some(), "U72.on_existing.no_error");
+	let (up, rebalance) = r.unwrap();
+	assert!(up.is_none(), "U72.on_existing.a_removal_hands_nothing_up");
+	let present = kb % 2 == 0;
+	let nl = count_seps(&node);
+	assert!(packed(&node, false), "U72.on_existing.leaf_stays_packed");
+	if !present {
+		// a key that is not in the tree: nothing is released, nothing changes
+		assert!(unsafe { WEV_N } == 0 && nl == n, "U72.on_existing.absent_key_changes_nothing");
+		assert!(!rebalance, "U72.on_existing.absent_key_changes_nothing");
+	} else {
+		// the value entry of exactly that key is released / dereferenced, once
+		assert!(unsafe { WEV_N } == 1 && unsafe { WEV_ADDR } == kb as u64, "U72.on_existing.the_value_of_that_key_is_released_once");
+		if gone {
+			assert!(nl + 1 == n, "U72.on_existing.the_key_leaves_the_leaf");
+			assert!(rebalance == (nl < ORDER / 2), "U72.on_existing.rebalance_is_asked_for_exactly_below_half_full");
+		} else {
+			assert!(nl == n, "U72.on_existing.a_value_that_stays_keeps_its_key");
+		}
+	}
+	// the remaining keys: ascending, each with its own value, exactly the old ones minus (possibly) the removed one
+	let mut j = 0;
+	let mut expect = 2u8;
+	while j < ORDER {
+		if j < nl {
+			if present && gone && expect == kb {
+				expect += 2;
+			}
+			assert!(sep_key(&node, j) == expect && sep_tag(&node, j) == expect as u64, "U72.on_existing.other_keys_stay_in_order_with_their_values");
+			expect += 2;
+		}
+		j += 1;
+	}
+	kani::cover!(present && gone, "removed");
+	kani::cover!(!present || n == 0, "absent");
+	std::mem::forget(up);
+	std::mem::forget(node);
+}
+
 /*@@GENERATED:btree_node@@*/
